@@ -454,6 +454,37 @@ def expectedOuts (g : Graph) (l : List Nat) (F : Nat → Nat → Nat) : List (Na
   l.flatMap fun i => (enum (g.frag i).resout).filterMap fun pr =>
     (outPort g l i pr.1).map fun k => (k, F i pr.1)
 
+/-! ## denotational semantics of the composed network
+
+  Channel assumption, stated explicitly (it is C04's property: a bond delivers every value exactly
+  once, in order, to every consumer): in round n every blocking read `mov r, iK` returns the value the
+  bonded producer wrote in its round n.  A round of the whole network is then described by one value
+  per endpoint, `σ : End → Nat`, and `σ` is *consistent* with the composed machine when
+  (1) both ends of every bond carry the same value, (2) every CP, running its section sequentially
+  from ANY register contents and reading `σ` on its input ports, writes on every output port the
+  value `σ` gives to it, (3) the BM inputs carry the input vector.  -/
+
+def srcValV (inputs : List Nat) (V : Nat → Nat → Nat) : Src → Nat
+  | .ext k => inputs.getD k 0
+  | .out i p => V i p
+
+def inValV (g : Graph) (inputs : List Nat) (V : Nat → Nat → Nat) (i j : Nat) : Nat :=
+  match g.inSrc i j with
+  | some s => srcValV inputs V s
+  | none => 0
+
+/-- `V` (instance, output port ↦ value) satisfies the dataflow equations of the graph -/
+def IsSolution (g : Graph) (inputs : List Nat) (V : Nat → Nat → Nat) : Prop :=
+  ∀ i, i < g.insts.length → ∀ p, p < g.nOut i →
+    V i p = ((g.frag i).fn g.w ((List.range (g.nIn i)).map (inValV g inputs V i))).getD p 0
+
+structure Consistent (g : Graph) (pt : Part) (inputs : List Nat) (σ : End → Nat) : Prop where
+  bond : ∀ ab ∈ bonds g pt, σ ab.2 = σ ab.1
+  sec : ∀ c, c < pt.length → ∀ ρ : RegFile,
+    ∀ kv ∈ (runSec g.w (fun k => σ (.cpIn c k)) (secRes g (listOf pt c)) ⟨ρ, []⟩).outs,
+      σ (.cpOut c kv.1) = kv.2
+  inp : ∀ k, σ (.bmIn k) = inputs.getD k 0
+
 /-! ## operational semantics of the composed network (executable; the oracle uses it)
 
   Channel assumption (C04's property): an output port *offers* one value; every consumer bonded to
